@@ -2,15 +2,18 @@
 """seeded/README.md: which check catches which seeded change (from the matrix log of the last full run)."""
 import json, os, re, sys
 VERIF = os.path.dirname(os.path.dirname(os.path.abspath(__file__)))
-log = sys.argv[1] if len(sys.argv) > 1 else "/root/seedwork/matrix.log"
+logs = sys.argv[1:] or ["/root/seedwork/matrix.log"]
 rows = {}
-for l in open(log):
-    m = re.match(r"(\S+) check=(\S+) rc=(\d) native=(\d+) refuted=(\d+) nofail=(\d+) undecided=(\d+)", l)
-    if m:
-        rows.setdefault(m.group(1), []).append(dict(check=m.group(2), rc=int(m.group(3)), native=int(m.group(4)), refuted=int(m.group(5)), nofail=int(m.group(6)), undecided=int(m.group(7))))
+for log in logs:
+    for l in open(log):
+        m = re.match(r"(?:RUN )?(\S+) check=(\S+) rc=(\d) native=(\d+) refuted=(\d+) nofail=(\d+) undecided=(\d+)", l)
+        if m:
+            d = dict(check=m.group(2), rc=int(m.group(3)), native=int(m.group(4)), refuted=int(m.group(5)), nofail=int(m.group(6)), undecided=int(m.group(7)))
+            rs = rows.setdefault(m.group(1), [])
+            rs[:] = [r for r in rs if r["check"] != d["check"]] + [d]   # a later log line for the same (change, check) replaces the earlier one
 out = ["# Seeded changes and the checks that catch them", "",
        "Each directory holds `patch.diff` (applies to /repo HEAD with `git -C /repo apply`), `demo.py` (exit 1 with the change, 0 without) and `meta.json`.",
-       "The changes `C??_m?` were written by independent sub-agents that saw only the property text; `R_<commit>` are the reverted `fix:` commits (the original defects).",
+       "The changes `C??_m1/m2` (round 1) and `C??_m3/m4` (round 2, told which round-1 changes to avoid) were written by independent sub-agents that saw only the property text; `R_<commit>` are the reverted `fix:` commits (the original defects).",
        "Every change was verified in a scratch worktree: patch applies, the 120 existing tests pass, the demo fails with it and passes without it.", "",
        "Columns: *how* = `native` (the bounded battery replayed a failing input on the real code), `refuted` (an obligation got a counter-model), `undecided-proof` (the proof side ended UNDECIDED - spec drift or unsupported construct - and the battery decided).", "",
        "| change | property | what it changes | caught by (exit 1) | how |", "|---|---|---|---|---|"]
